@@ -424,10 +424,17 @@ class Property:
 
 
 def load_known(pid: str):
-    p = VERIF / "known_findings.json"
-    if not p.exists():
-        return []
-    return [f for f in json.loads(p.read_text()).get("findings", []) if f.get("property") == pid and f.get("status") == "known"]
+    """known (recorded, unrepaired) findings of one property, read from the committed findings/*.json fragments
+    (known_findings.json is the assembled, human-readable copy of the same files; neither is written at check time)"""
+    out = []
+    d = VERIF / "findings"
+    for f in sorted(d.glob("*.json")) if d.exists() else []:
+        try:
+            items = json.loads(f.read_text())
+        except Exception:
+            continue
+        out += [x for x in items if x.get("property") == pid and x.get("status") == "known"]
+    return out
 
 
 def write_replay(pid: str, payload: dict) -> str:
@@ -573,6 +580,13 @@ def _run_property(prop: Property, ctx: Ctx, a) -> int:
 
     # 7. search when a tie broke ---------------------------------------------------
     known = load_known(pid)
+    # a known finding is only honoured while the negation-witness theorem that documents it still exists
+    thm_short = {t.split(".")[-1] for t in theorems} | set(theorems)
+    stale = [k for k in known if k.get("witness_theorem") and k["witness_theorem"].split(".")[-1] not in thm_short]
+    for k in stale:
+        ctx.notes.append(f"known finding {k['key']} ignored: witness theorem {k['witness_theorem']} is not in {prop.props_file}")
+        print(f"NOTE: known finding {k['key']} ignored (witness theorem {k['witness_theorem']} not found)")
+    known = [k for k in known if k not in stale]
     known_keys = {k["key"] for k in known}
 
     def unlisted():
@@ -588,6 +602,7 @@ def _run_property(prop: Property, ctx: Ctx, a) -> int:
     rc = 0
     lines = []
     reproduced = []
+    not_reproduced = []
     for k in known:
         hit = any(v["key"] == k["key"] for v in ctx.violations)
         if not hit:
@@ -598,6 +613,9 @@ def _run_property(prop: Property, ctx: Ctx, a) -> int:
         if hit:
             lines.append(f"KNOWN-FINDING: property={pid} {k['what']}")
             reproduced.append(k["key"])
+        else:
+            not_reproduced.append(k["key"])
+            print(f"NOTE: known finding {k['key']} did not reproduce in this run (fixed, or not reached by this seed/tier)")
     seen_keys = set()
     nviol = 0
     for v in unlisted():
@@ -641,6 +659,7 @@ def _run_property(prop: Property, ctx: Ctx, a) -> int:
             "boundary_cases": ctx.boundary,
             "input_distribution": dict(sorted(ctx.hist.items())),
             "known_findings_reproduced": reproduced,
+            "known_findings_not_reproduced": not_reproduced,
             "broken": broken,
             "repo": str(REPO),
         },
